@@ -27,11 +27,11 @@ theorem loopWith_none_or_false {α : Type} (chk : α → Option Bool) (l : List 
 
 /-- what the patterns yield on a reachable server -/
 def patsValue (s : State) (u : User) (pw : Pw) : Option Bool :=
-  (firstPat s).map (fun p => p == Pat.entry && s.dir u == some pw)
+  (firstPat s).map (fun p => p == Pat.entry && holds s u pw)
 
 theorem loopWith_patAnswer (s : State) (u : User) (pw : Pw) (l : List Pat) :
     loopWith (patAnswer s u pw) l =
-      (l.find? (fun p => p != Pat.malformed)).map (fun p => p == Pat.entry && s.dir u == some pw) := by
+      (l.find? (fun p => p != Pat.malformed)).map (fun p => p == Pat.entry && holds s u pw) := by
   induction l with
   | nil => rfl
   | cons p rest ih =>
@@ -314,6 +314,7 @@ theorem inv_step {s : State} (h : Inv s) (op : Op) : Inv (step s op) := by
   | setServers l => exact inv_of_same h rfl rfl (Nat.le_refl _) (fun _ _ hr => Or.inl hr)
   | setPats l => exact inv_of_same h rfl rfl (Nat.le_refl _) (fun _ _ hr => Or.inl hr)
   | changePw u pw => exact inv_of_same h rfl rfl (Nat.le_refl _) (fun _ _ hr => Or.inl hr)
+  | setAccount u ok => exact inv_of_same h rfl rfl (Nat.le_refl _) (fun _ _ hr => Or.inl hr)
   | setAnon b => exact inv_of_same h rfl rfl (Nat.le_refl _) (fun _ _ hr => Or.inl hr)
   | advance dt => exact inv_of_same h rfl rfl (Nat.le_add_right _ _) (fun _ _ hr => Or.inl hr)
   | setPrim p => exact inv_of_same h rfl rfl (Nat.le_refl _) (fun _ _ hr => Or.inl hr)
